@@ -110,6 +110,7 @@ func runWorker(self string, prop, tier string, seed int64, shard, n int, announc
 		return res
 	}
 	last := time.Now()
+	seenLast, silentTicks := last, 0
 	var mu sync.Mutex
 	doneCh := make(chan struct{})
 	go func() {
@@ -120,8 +121,15 @@ func runWorker(self string, prop, tier string, seed int64, shard, n int, announc
 			case <-doneCh:
 				return
 			case <-t.C:
+				// silence is counted in ticks actually observed, not in clock time: when the whole machine is paused
+				// (snapshots of the sandbox) the clock jumps, and a jump is not a hang
 				mu.Lock()
-				silent := time.Since(last)
+				if last.Equal(seenLast) {
+					silentTicks++
+				} else {
+					seenLast, silentTicks = last, 0
+				}
+				silent := time.Duration(silentTicks) * 2 * time.Second
 				mu.Unlock()
 				if silent > HangSilence {
 					res.hung = true
@@ -506,15 +514,26 @@ func runOnly(self, prop, tier string, seed int64, caseID string, extraEnv []stri
 	}
 	done := make(chan error, 1)
 	go func() { done <- cmd.Wait() }()
-	select {
-	case err := <-done:
-		if err != nil {
-			res.died = true
+	// (ticks observed, not clock time: see runWorker)
+	tk := time.NewTicker(2 * time.Second)
+	defer tk.Stop()
+wait:
+	for ticks := 0; ; {
+		select {
+		case err := <-done:
+			if err != nil {
+				res.died = true
+			}
+			break wait
+		case <-tk.C:
+			ticks++
+			if time.Duration(ticks)*2*time.Second > HangSilence {
+				cmd.Process.Kill()
+				<-done
+				res.hung = true
+				break wait
+			}
 		}
-	case <-time.After(HangSilence):
-		cmd.Process.Kill()
-		<-done
-		res.hung = true
 	}
 	res.stderr = errb.String()
 	for _, line := range bytes.Split(outb.Bytes(), []byte("\n")) {
